@@ -110,6 +110,11 @@ func (p *FloatingIPPlugin) resyncAllocatedIPs(meta *resyncMeta) {
 				return
 			}
 			glog.Infof("%s is not running, %s", obj.keyObj.KeyInDB, reason)
+			if p.keyOwnedByRunningPod(obj.keyObj, obj.fip.PodUid) {
+				// unbinding works on all ips of the key, wait until the pod which owns the other ips is gone
+				glog.Infof("%s has ips owned by a running pod, skip %s", obj.keyObj.KeyInDB, obj.fip.IP.String())
+				return
+			}
 			if p.cloudProvider != nil && obj.fip.NodeName != "" {
 				// For tapp and sts pod, nodeName will be updated to empty after unassigning
 				glog.Infof("UnAssignIP nodeName %s, ip %s, key %s during resync", obj.fip.NodeName,
@@ -139,6 +144,25 @@ func (p *FloatingIPPlugin) resyncAllocatedIPs(meta *resyncMeta) {
 			}
 		}()
 	}
+}
+
+// keyOwnedByRunningPod checks if any ip of the key is stored with a pod uid other than the given one and that pod is
+// running. Reserving and releasing ips work on all ips of a key, so a stale ip of an earlier pod with the same name must
+// not be handled while its key also holds ips of a running pod.
+func (p *FloatingIPPlugin) keyOwnedByRunningPod(keyObj *util.KeyObj, podUid string) bool {
+	ipInfos, err := p.ipam.ByKeyAndIPRanges(keyObj.KeyInDB, nil)
+	if err != nil {
+		return true
+	}
+	for _, ipInfo := range ipInfos {
+		if ipInfo == nil || ipInfo.PodUid == podUid {
+			continue
+		}
+		if running, _ := p.podRunning(keyObj.PodName, keyObj.Namespace, ipInfo.PodUid); running {
+			return true
+		}
+	}
+	return false
 }
 
 func (p *FloatingIPPlugin) podRunning(podName, namespace, podUid string) (bool, string) {
